@@ -255,7 +255,10 @@ func (m *Machine) callSummarized(fn *ssa.Function, args []Value, env []Value) Va
 	}
 	if sm == nil {
 		sm = m.explore(fn, args, env)
-		if memoOK && len(m.sumMemo) < 200000 {
+		if memoOK {
+			if len(m.sumMemo) > 60000 {
+				m.sumMemo = map[string]*summary{}
+			}
 			m.sumMemo[memoKey] = sm
 		}
 	} else {
